@@ -494,8 +494,8 @@ class RefC(FragContract):
         if k == 'local':
             return cx.entry_env['prm']
         if k == 'super':
-            # as emitted today: looked up through the run-time context (C13 states it separately)
-            return Const('_ctx._super_ctx._try_R', Val)
+            # super.R is static: the parent of the grammar in which it is written, resolved in that module's namespace (C13)
+            return Const('_super_ctx._try_R', Val)
         return Const('Q', Val)
 
     def setup(self, cx, ex, st):
